@@ -511,6 +511,40 @@ Definition agree_x (C : xcfg) (es : list xev) (ostates : list (xobs)) (oitems : 
   let '(l, (_, X)) := xtrace C es xstart in
   list_eqb xo_eqb l ostates && list_eqb oitem_eqb (map oseen (xout X)) oitems.
 
+(* ---------------------------------------------------------------- specification: the whole stream, hook by hook
+   Plain configuration without threshold (every call is recorded), any read= triggers, -W cpu and/or -W var,
+   hooks at least 2 ns apart.  Every hook contributes one chunk, in hook order:
+       entry hook of f :   <watch events of this hook>  ENTRY f  READ_k ..        (k: the read kinds of f)
+       exit hook of f  :   <watch events of this hook>  DIFF_k ..  EXIT f
+   - only the thread's first hook has its watch events (stamped +1 ns) BEHIND "ENTRY f READ_k ..".
+   Which watch events a hook generates is save_watchpoint's decision ([x_watch]: C17_watch_cpu_iff_changed,
+   C17_watch_var_iff_changed, the MAX_EVENT limit counted since the last exit hook); this specification says
+   WHERE they appear in the stream, with which stamp, and what else the stream contains. *)
+Definition hitem (i : item) : oitem := oideal i.
+Fixpoint hspec_go (C : xcfg) (es : list xev) (W : xpart) (stk : list (N * N * oval)) : list oitem :=
+  match es with
+  | [] => []
+  | XEnter a t o :: r =>
+      let W0 := x_first C W o in
+      let W1 := x_watch C (dummy_frame t) (N.of_nat (length stk)) o W0 in
+      let new := map (fun e => hitem (IE (a_ev e))) (skipn (length (pend W0)) (pend W1)) in
+      let rc := OR (t, UFTRACE_ENTRY, RECORD_MAGIC, N.of_nat (length stk), a) in
+      let rd := map (fun e => hitem (IE e)) (reads C a t o) in
+      (if w_inited W0 then new ++ [rc] ++ rd else [rc] ++ rd ++ new)
+      ++ hspec_go C r W1 ((a, t, o) :: stk)
+  | XLeave t o :: r =>
+      match stk with
+      | [] => []
+      | (a, t0, o0) :: stk' =>
+          let W1 := x_watch C (dummy_frame t) (N.of_nat (length stk')) o W in
+          let new := map (fun e => hitem (IE (a_ev e))) (skipn (length (pend W)) (pend W1)) in
+          new ++ map (fun e => hitem (IE e)) (diffs C a t o0 o)
+          ++ [OR (t, UFTRACE_EXIT, RECORD_MAGIC, N.of_nat (length stk'), a)]
+          ++ hspec_go C r (set_pend W1 []) stk'
+      end
+  end.
+Definition hspec (C : xcfg) (es : list xev) : list oitem := hspec_go C es xinit [].
+
 (* ---------------------------------------------------------------- several threads of one process
    Every thread has its own machine (shadow stack, filter state, pending events, cpu observation, copy of the
    watched variable); the global watch item of -W var (mcount_watch_update: inited, data) is shared: a thread
